@@ -132,8 +132,26 @@ let judge (lhs : string list) (rhs : string list) (line : string) =
        let xd = dec_req x and yd = dec_req y in
        let pi = int_of_string p in
        let start = 4 * pi + 64 in
+       (* An error raised by a trap of a PRIVATE context (Pow runs its steps under BaseContext's traps): its bits are
+          not among the caller's traps and no value was delivered - the destination holds whatever was there.  What the
+          call claims is "the result overflowed" / "underflowed"; that claim is judged by reading it as the value GDA
+          would deliver (Infinity, or zero at Etiny); any other private error makes no claim. *)
+       let private_bits =
+         if String.length er > 5 && String.sub er 0 5 = "trap:" then
+           let b = int_of_string (String.sub er 5 (String.length er - 5)) in
+           if b land (int_of_string traps) = 0 then Some b else None
+         else None in
+       let cr = int_of_string cnd in
+       let (o, judged) =
+         match private_bits with
+         | None -> (o, true)
+         | Some _ ->
+             if cr land 4 <> 0 then ({ o with o_dec = dec_req "I:0:0:0" }, true)
+             else if cr land 8 <> 0 then
+               ({ o with o_dec = dec_req (Printf.sprintf "F:0:0:%d" (int_of_string emin - pi + 1)) }, true)
+             else (o, false) in
        let rec go bits tries =
-         let codes = oracle_c12 (z_of_int bits) t c xd yd o in
+         let codes = if judged then oracle_c12 (z_of_int bits) t c xd yd o else [] in
          if is_unknown codes && tries > 0 then (incr escalated; go (bits * 2) (tries - 1)) else codes in
        (* C04 only looks for panics, hangs and ill-formed results; C07 only at the fit of the result *)
        let codes = if !mode = "C12" then go start 3 else [] in
